@@ -351,7 +351,24 @@ def c15(ck, F, tier):
     guarded(ck, rs.move_order, F)
 
 
-PROPS = {"C08": c08, "C12": c12, "C13": c13, "C14": c14, "C15": c15, "C16": c16, "C09": c09, "C22": c22, "C34": c34, "C21": c21, "C05": c05, "C28": c28, "C10": c10, "C29": c29, "C17": c17, "C01": c01, "C02": c02, "C03": c03, "C04": c04, "C23": c23, "C26": c26}
+def c33(ck, F, tier):
+    import rules_struct as rs
+    ck.explanation = (
+        "Static decision that metadata is handled wherever cells are: (TRIPLE) every function displacing cell formulas also "
+        "displaces links and conditional-format ranges of the same sheet with the same DisplaceData value; (LINK-DIFF) every "
+        "UserModel operation calling a Model function whose effect summary writes Worksheet.links captures the change "
+        "(dominating range_link_diffs, an explicit SetCellLink diff, or the capturing helper), Model::range_clear_* and the "
+        "empty-input branch of set_user_input write Worksheet.links; (TRIPLE-cut) the cut branch of paste calls all three "
+        "get_*_updates_for_cut. Agreement of the three displacement maps on edge positions is arithmetic and not decided.")
+    ck.rule("TRIPLE", "formulas, links and conditional-format ranges are displaced together", floor=12)
+    ck.rule("LINK-DIFF", "link changes caused by user-model operations are captured for undo", floor=10)
+    ck.rule("TRIPLE-cut", "cut/paste updates formulas, links and conditional formats that referenced the cut area", floor=3)
+    guarded(ck, rs.triple, F)
+    guarded(ck, rs.link_diff, F)
+    guarded(ck, rs.triple_cut, F)
+
+
+PROPS = {"C08": c08, "C33": c33, "C12": c12, "C13": c13, "C14": c14, "C15": c15, "C16": c16, "C09": c09, "C22": c22, "C34": c34, "C21": c21, "C05": c05, "C28": c28, "C10": c10, "C29": c29, "C17": c17, "C01": c01, "C02": c02, "C03": c03, "C04": c04, "C23": c23, "C26": c26}
 
 
 def run(pid, tier):
